@@ -177,8 +177,9 @@ inline Mat gen(vf::Rng& g, int n, int st, double kscale = 12) {
 }
 
 // safety factor of the residual bound  ||A x - b|| <= K(n) eps kappa_F ||A||_F ||x||
-// (calibrated: worst observed err/(eps kappa ||A|| ||x||) is ~3.2 at n=2 (threshold pivoting) and ~2.8 at n=1 (QR))
-inline L Kres(int n) { return 600.0L + 20.0L * n; }
+// calibrated on 5 seeds of the thorough tier: the worst observed ||Ax-b|| / (eps kappa_F ||A||_F ||x||) is ~20
+// (n = 2, 3 in the pivot-threshold stratum: no row exchange with a multiplier close to 10), ~3 elsewhere
+inline L Kres(int n) { return 1600.0L + 40.0L * n; }
 
 struct Ref {
   Mat A, Ainv;
